@@ -2131,8 +2131,13 @@ impl TransactionBuilder {
                                 serialization_format: None,
                             };
 
-                            // increase fee
-                            let fee_for_change = self.fee_for_output(&change_output)?;
+                            // increase fee (the last change output is topped up with the rest of the ADA later on:
+                            // the output is costed with the widest coin it can end up with)
+                            let mut fee_probe = change_output.clone();
+                            if change_left.coin > min_ada {
+                                fee_probe.amount.set_coin(&change_left.coin);
+                            }
+                            let fee_for_change = self.fee_for_output(&fee_probe)?;
                             new_fee = new_fee.checked_add(&fee_for_change)?;
                             if change_left.coin() < min_ada.checked_add(&new_fee)? {
                                 return Err(JsError::from_str("Not enough ADA leftover to include non-ADA assets in a change address"));
